@@ -723,7 +723,8 @@ func (x *Exec) loopHeader(h *ssa.BasicBlock, ci *cfgInfo, pre *State, reach Term
 	fr := x.frame
 	a0 := x.alloc0
 	post.heaps = map[string]Term{}
-	post.gen = &Gen{kind: "havoc", parent: pre, guard: reach, tag: fmt.Sprintf("l%d", ord), allocBefore: a0,
+	pa := post.alloc
+	post.gen = &Gen{kind: "havoc", parent: pre, guard: reach, tag: fmt.Sprintf("l%d", ord), allocBefore: a0, allocAfter: &pa,
 		writable: func(heap string, p Term) Term { return fr.Writable(heap, p) }}
 	if fr == nil || fr.any {
 		post.gen.writable = nil
@@ -878,7 +879,7 @@ func (u *Unit) typeFacts(v Term, t types.Type, alloc Term, depth int) Term {
 	case *types.Pointer, *types.Map, *types.Chan:
 		return And(Ge(PBase(v), IntLit(0)), Lt(PBase(v), alloc))
 	case *types.Slice:
-		return And(Ge(SlLen(v), IntLit(0)), Le(SlLen(v), SlCap(v)), Ge(PBase(SlPtr(v)), IntLit(0)), Lt(PBase(SlPtr(v)), alloc), Ge(PIdx(SlPtr(v)), IntLit(0)),
+		return And(Ge(SlLen(v), IntLit(0)), Le(SlLen(v), SlCap(v)), Le(SlCap(v), IntLit(1<<47)), Ge(PBase(SlPtr(v)), IntLit(0)), Lt(PBase(SlPtr(v)), alloc), Ge(PIdx(SlPtr(v)), IntLit(0)),
 			Implies(Eq(PBase(SlPtr(v)), IntLit(0)), Eq(SlCap(v), IntLit(0))))
 	case *types.Struct:
 		if depth > 2 {
